@@ -87,7 +87,7 @@ func (p *parser) parseModuleSection_global() *ast.Global {
 			if gInit {
 				p.errorf(p.pos, "init twice: %v %v", p.tok, p.lit)
 			}
-			p.acceptToken(token.INS_I32_CONST)
+			p.acceptToken(token.INS_F64_CONST)
 			g.F64Value = p.parseFloat64Lit()
 			p.acceptToken(token.RPAREN)
 			gInit = true
